@@ -4,7 +4,7 @@ CHECK = {'level': 'exploration',
          '{"",00,01,61,ff,61ff,00ff,ffff}, 0-30 initial keys (bytes from {00,01,61,ff}, lengths 0-4, 20% under neighbouring prefixes), '
          'root view diffdb.New + up to 5 WithPrefix children/grandchildren (child prefixes of length 0-2), actions Set/Del/Get/Has/'
          'Range(start,end,limit in {-1,1,2,5},fwd/rev, also start>end)/Iterate(prefix,limit,fwd/rev)/Snapshot/RestoreSnapshot (live and '
-         'unknown ids)/DeleteSnapshot through the root/Commit+db.Write+fresh diffdb.New/dry Commit into a copy, RevertDiff on twin '
+         'unknown ids)/DeleteSnapshot (through the root; through any view where the start-up probe allows)/Commit+db.Write+fresh diffdb.New/dry Commit into a copy, RevertDiff on twin '
          'databases (same diff object, after Encode/Decode, and all diffs of the history newest first). DB machine: Set/Del/Batch/batchdb '
          '(with and without prefix) writes, Get/Exist/Iterate/IterateKey/IterateRange on the DB and on up to two Readers taken earlier. '
          'Non-trivial (staged) = the history contains a limited scan whose bounds cover a staged delete of a stored key, or a scan '
@@ -14,13 +14,16 @@ CHECK = {'level': 'exploration',
                'sorted-map reference: every read is compared with the same query on the model (one logical staged state shared by all prefix '
                'views), every Commit with the staged map (whole database dump, keys outside the root prefix included), every diff by '
                'reverting it on a twin database and comparing byte for byte with the contents before the commit.',
- 'level_note': 'Snapshot/Restore/DeleteSnapshot are issued through the root view and prefix views are re-derived after a restore, as '
-               'statemachine.ExecuteTransaction/GetStore do (handles that outlive a restore keep the discarded overlay: observed, not '
-               'asserted). limit 0 and limits < -1 are outside the asserted domain (no caller; db scans and diffdb disagree on 0). Callers '
-               'do not mutate slices passed to / returned from the store (not tested). No concurrency.',
+ 'level_note': 'Snapshot domain is chosen by a start-up probe: if handles derived before a RestoreSnapshot keep the discarded overlay '
+               '(tree before "fix: restore a diffdb snapshot for every prefixed view"), snapshots are taken/restored through the root view only '
+               'and prefix views are re-derived after a restore, as statemachine.ExecuteTransaction/GetStore do; otherwise any view takes/restores '
+               'snapshots and old handles stay in use. limit 0 and limits < -1 are outside the asserted domain (no caller; db scans and diffdb '
+               'disagree on 0). Callers do not mutate slices passed to / returned from the store (not tested). No concurrency. While findings '
+               'C12-F1..F3 are present and listed as known their triggers are avoided (on that tree Iterate is exercised only through views with '
+               'an empty full prefix).',
  'technique': 'property-based state-machine testing (rapid) against a sorted-map reference model',
  'assumptions': ['reference = harness/model/kv (map sorted on every query)',
-                 'snapshots are taken/restored through the root view only; views are re-derived after a restore (engine callers)',
+                 'snapshot domain follows the start-up probe (root-only + re-derived views where a restore is not seen by other handles)',
                  'limit in {-1} or >= 1', 'database is not written behind a live staged store (the node commits, then starts a fresh one)'],
- 'quick': [{'pkg': 'c12', 'checks': 5000, 'steps': 40, 'timeout': 600}],
+ 'quick': [{'pkg': 'c12', 'checks': 10000, 'steps': 40, 'timeout': 600}],
  'thorough': [{'pkg': 'c12', 'checks': 40000, 'steps': 40, 'shards': 16, 'timeout': 2400}]}
